@@ -451,7 +451,7 @@ fn main() {
             let codes = class_codes(w, d);
             let nclass = codes.len().min(w.pow(d as u32));
             let n_assign = nclass.pow(4);
-            let len = if n_assign > 16 { if thorough { 9 } else { 7 } } else if thorough { 11 } else { 9 };
+            let len = if n_assign > 16 { if thorough { 9 } else { 8 } } else if thorough { 11 } else { 10 };
             for a in 0..n_assign {
                 let mut x = a;
                 let mut cs = [0u64; 4];
